@@ -32,8 +32,8 @@ def dumpTree (l : List Node) : String :=
 
 def dump (s : Pool) : String :=
   s!"st size={s.size} align={s.alignment} min={s.minItemSize}"
-  ++ String.join ((List.range 7).map fun i => s!" g{i}=[{dumpGaps (s.gaps i)}]")
-  ++ String.join ((List.range 7).map fun i => s!" t{i}=[{dumpTree (s.tree i)}]")
+  ++ String.join ((List.range 7).map fun i => s!" g{i}=[{dumpGaps (getAt s.gaps i)}]")
+  ++ String.join ((List.range 7).map fun i => s!" t{i}=[{dumpTree (getAt s.tree i)}]")
 
 def padOf : String → Option (BitVec 8)
   | "x86" => some 0xCC#8
@@ -49,7 +49,7 @@ def addReason (m : Spec.Mon) (data : Bytes) (off size align : Nat) : String :=
   else if m.hist.any (fun e => e.data == data && e.offset != off) then "not-deduplicated-or-unstable"
   else "overlaps-earlier-constant"
 
-def imageReason (hist : List Spec.Entry) (size align : Nat) (img : Bytes) : String :=
+def imageReason (hist : List Spec.Entry) (size _align : Nat) (img : Bytes) : String :=
   if img.length != size then "image-length"
   else if !(hist.all fun e => Spec.slice img e.offset e.data.length == e.data) then "image-content"
   else if !((List.range size).all fun p => hist.any (Spec.covers · p) || img[p]? == some 0#8) then "gap-not-zero"
